@@ -148,12 +148,21 @@ void LoopWDog::Start() {
 }
 
 void LoopWDog::Stop() {
-    std::lock_guard<std::mutex> lg(_mutex_lock);
-    if (_keep_running) {
-        _keep_running = false;
-        _sp_thread->join();
-        CHECK_DELETE_RESET_OBJ(_sp_thread);
-        _loop_info_vec.clear();
+    std::thread *thread = nullptr;
+    {
+        std::lock_guard<std::mutex> lg(_mutex_lock);
+        if (_keep_running) {
+            _keep_running = false;
+            thread = _sp_thread;
+            _sp_thread = nullptr;
+            _loop_info_vec.clear();
+        }
+    }
+
+    //! 必须在释放锁之后再join()：监控线程在 SendLoopFunc(),CheckLoopTag() 中要拿同一把锁，否则会死锁
+    if (thread != nullptr) {
+        thread->join();
+        delete thread;
     }
 }
 
